@@ -109,7 +109,17 @@ def run(name, tier, props):
         sh(["git", "-C", REPO, "checkout", "--", "."])
         sh(["git", "-C", REPO, "clean", "-fdq", "src", "tests"])
     result["detected"] = any(c["exit"] != 0 for c in result["checks"].values())
-    json.dump(result, open(os.path.join(d, "result.json"), "w"), indent=1)
+    result["verif_commit"] = sh(["git", "-C", VERIF, "rev-parse", "--short", "HEAD"])[1].strip()
+    rp = os.path.join(d, "result.json")
+    history = []
+    if os.path.exists(rp):
+        try:
+            old = json.load(open(rp))
+            history = old.pop("history", []) + [old]
+        except Exception:
+            pass
+    result["history"] = history
+    json.dump(result, open(rp, "w"), indent=1)
     return result
 
 
